@@ -26,6 +26,10 @@ def put {κ ν} [BEq κ] (m : Store κ ν) (k : κ) (v : ν) : Store κ ν := (k
 /-- what an iterator over the store yields: the entries `get` sees (an association list may carry shadowed entries; a KV
 store iterator yields every key once with its current value) -/
 def visible {κ ν} [BEq κ] [BEq ν] (m : Store κ ν) : Store κ ν := m.filter (fun p => get m p.1 == some p.2)
+/-- `Set` under a key that is present: a KV store has one slot per key, the value is replaced where it stands (used for
+the time-queue slices, whose iteration order the end blocker follows) -/
+def setAt {κ ν} [BEq κ] (m : Store κ ν) (k : κ) (v : ν) : Store κ ν :=
+  if m.any (fun p => p.1 == k) then m.map (fun p => if p.1 == k then (p.1, v) else p) else (k, v) :: m
 def ins {κ} [BEq κ] (s : List κ) (k : κ) : List κ := if s.contains k then s else k :: s
 def rem {κ} [BEq κ] (s : List κ) (k : κ) : List κ := s.filter (fun x => !(x == k))
 
@@ -45,15 +49,47 @@ structure Cfg where
   checkOperator : Bool
   /-- `Validate` rejects a target with delegation / unbonding / redelegation records -/
   checkTarget : Bool
+  /-- key family read by the already-migrated guard applied to the source / to the target ("" = no such guard) -/
+  recKeyFrom : String
+  recKeyTo : String
+  /-- `SetMigrateRecord` writes the record under the source, under the target, and the two direction flags -/
+  wRecFrom : Bool
+  wRecTo : Bool
+  wDirFrom : Bool
+  wDirTo : Bool
+  /-- the bank handler sends `GetAllBalances(from)` from the source to the target -/
+  bankAll : Bool
+  /-- `DepositPeriodCallback` refuses a proposer that is the source / the target, a depositor that is the source / the target -/
+  gProposerFrom : Bool
+  gProposerTo : Bool
+  gDepositFrom : Bool
+  gDepositTo : Bool
+  /-- `VotePeriodCallback` first runs the deposit callback, and refuses a voter that is the source / the target -/
+  gVoteDeposit : Bool
+  gVoteFrom : Bool
+  gVoteTo : Bool
+  /-- the entry loops of `Execute` reach the queue rewrite for every entry (no branch statement, the rewrite flag is
+  declared per entry) -/
+  qEveryEntry : Bool
+  /-- a queue element is renamed whenever its delegator is the source, whatever record it belongs to -/
+  qByDelegator : Bool
   deriving Repr, DecidableEq
 
 /-- the far-future bound that makes `NewPrefixUntilPairRange` cover every queue entry -/
 def farFuture : String := "time.Date(9999, 12, 31, 23, 59, 59, 0, time.UTC)"
 
+/-- key family read by the already-migrated guard `MigrateAccount` applies to `who` (resolved through the keeper's
+`Has…` methods) -/
+def guardKey (who : String) : String :=
+  match Gen.C14.recordChecks.find? (fun p => p.2 == who) with
+  | some p => (Gen.C14.recordPredicates.lookup p.1).getD ""
+  | none => ""
+
 def cfg : Cfg :=
   { rewriteDelIdx := Gen.C14.executeDeleteKeys.contains "GetDelegationsByValKey" &&
                      Gen.C14.executeSetKeys.contains "GetDelegationsByValKey"
-    rewriteUnbId := Gen.C14.executeSetKeys.contains "GetUnbondingIndexKey"
+    rewriteUnbId := Gen.C14.executeSetKeys.contains "GetUnbondingIndexKey" &&
+                    Gen.C14.unbondingIndexValues == ["GetUBDKey(to.Bytes(),valAddr)", "GetREDKey(to.Bytes(),valSrcAddr,valDstAddr)"]
     govScanAll := Gen.C14.govInactiveBound == farFuture && Gen.C14.govActiveBound == farFuture
     orderOk := Gen.C14.handlerOrder == ["check-record-from", "check-record-to", "check-from-account",
                                         "validate-all", "execute-all", "set-record"]
@@ -62,7 +98,25 @@ def cfg : Cfg :=
                      Gen.C14.stakingValidateChecks.contains "validator-to"
     checkTarget := Gen.C14.stakingValidateChecks.contains "delegations-to" &&
                    Gen.C14.stakingValidateChecks.contains "unbonding-to" &&
-                   Gen.C14.stakingValidateChecks.contains "redelegations-to" }
+                   Gen.C14.stakingValidateChecks.contains "redelegations-to"
+    recKeyFrom := guardKey "from"
+    recKeyTo := guardKey "to"
+    wRecFrom := Gen.C14.recordWrites.contains ("GetMigratedRecordKey", "from")
+    wRecTo := Gen.C14.recordWrites.contains ("GetMigratedRecordKey", "to")
+    wDirFrom := Gen.C14.recordWrites.contains ("GetMigratedDirectionFrom", "from")
+    wDirTo := Gen.C14.recordWrites.contains ("GetMigratedDirectionTo", "to")
+    bankAll := Gen.C14.bankAmountCall == "GetAllBalances(from)" && Gen.C14.bankSendArgs == "from,to.Bytes(),amount"
+    gProposerFrom := Gen.C14.govDepositChecks.contains "proposer-from"
+    gProposerTo := Gen.C14.govDepositChecks.contains "proposer-to"
+    gDepositFrom := Gen.C14.govDepositChecks.contains "deposit-from"
+    gDepositTo := Gen.C14.govDepositChecks.contains "deposit-to"
+    gVoteDeposit := Gen.C14.govVoteChecks.contains "deposit-callback"
+    gVoteFrom := Gen.C14.govVoteChecks.contains "vote-from"
+    gVoteTo := Gen.C14.govVoteChecks.contains "vote-to"
+    qEveryEntry := Gen.C14.queueLoops.map (fun l => (l.1, l.2.1, l.2.2.2)) ==
+                     [("ubd.Entries", "", "inside"), ("red.Entries", "", "inside")]
+    qByDelegator := Gen.C14.queueLoops.map (fun l => l.2.2.1) ==
+                      ["UBDQueue[i].DelegatorAddress == from.String()", "redQueue[i].DelegatorAddress == from.String()"] }
 
 /-! ## state -/
 def bondedPool : Addr := 901
@@ -76,6 +130,16 @@ structure Proposal where
   depEnd : Time
   voteEnd : Time
   total : Nat
+  deriving Repr, DecidableEq, BEq
+
+/-- a vesting schedule (`x/auth/vesting`): 0 = delayed (everything at `stop`), 1 = continuous (linear from `start` to
+`stop`), 2 = periodic (`periods`: length, amount), 3 = permanently locked -/
+structure Vest where
+  kind : Nat
+  start : Time
+  stop : Time
+  orig : List (Denom × Nat)
+  periods : List (Nat × List (Denom × Nat))
   deriving Repr, DecidableEq, BEq
 
 structure State where
@@ -110,6 +174,9 @@ structure State where
   activeQ : List (Time × Nat) := []
   nextProp : Nat := 1
   recs : Store Addr (Bool × Addr) := []                           -- addr ↦ (is source?, other side)
+  dirFrom : List Addr := []                                       -- direction flag: migrated away
+  dirTo : List Addr := []                                         -- direction flag: migrated into
+  vest : Store Addr Vest := []                                    -- vesting schedules (accounts that only send / receive)
   deriving Repr
 
 /-! ## bank -/
@@ -120,6 +187,33 @@ def credit (b : Store (Addr × Denom) Nat) (a : Addr) (d : Denom) (n : Nat) := s
 def sendCoins (b : Store (Addr × Denom) Nat) (x y : Addr) (d : Denom) (n : Nat) : Option (Store (Addr × Denom) Nat) :=
   if balOf b x d < n then none else
   some (credit (setBal b x d (balOf b x d - n)) y d n)
+
+/-! ### vesting: locked coins -/
+def amountOf (l : List (Denom × Nat)) (d : Denom) : Nat := ((l.filter (fun p => p.1 == d)).map (·.2)).sum
+
+/-- periodic schedule: amounts of the periods that have fully elapsed at `now`, the first starting at `t` -/
+def vestedPeriods (now : Time) (d : Denom) : Time → List (Nat × List (Denom × Nat)) → Nat
+  | _, [] => 0
+  | t, (len, amt) :: rest => if t + len ≤ now then amountOf amt d + vestedPeriods now d (t + len) rest else 0
+
+def vestedOf (v : Vest) (now : Time) (d : Denom) : Nat :=
+  let o := amountOf v.orig d
+  match v.kind with
+  | 0 => if now ≥ v.stop then o else 0
+  | 1 => if now ≤ v.start then 0 else if now ≥ v.stop then o else o * (now - v.start) / (v.stop - v.start)
+  | 2 => if now ≤ v.start then 0 else if now ≥ v.stop then o else vestedPeriods now d v.start v.periods
+  | _ => 0
+
+/-- `LockedCoins` of an account at a time (0 for an account without schedule) -/
+def lockedAt (vs : Store Addr Vest) (now : Time) (a : Addr) (d : Denom) : Nat :=
+  match get vs a with
+  | none => 0
+  | some v => amountOf v.orig d - vestedOf v now d
+
+/-- `SendCoins` of a user account: `subUnlockedCoins` refuses to touch locked coins -/
+def sendUnlocked (b : Store (Addr × Denom) Nat) (locked : Nat) (x y : Addr) (d : Denom) (n : Nat) :
+    Option (Store (Addr × Denom) Nat) :=
+  if balOf b x d < locked + n then none else sendCoins b x y d n
 
 /-- all balances of an address, as (denom, amount) -/
 def balancesOf (b : Store (Addr × Denom) Nat) (a : Addr) : List (Denom × Nat) :=
@@ -289,7 +383,7 @@ def submit (s : State) (a : Addr) (dep : Nat) : Option State :=
     let pr : Proposal := { proposer := a, status := if voting then 1 else 0, depEnd := s.now + s.depPeriod,
                            voteEnd := if voting then s.now + s.votePeriod else 0, total := dep }
     some { s with bal := b, nextProp := id + 1, props := put s.props id pr,
-                  deposits := if dep == 0 then s.deposits else put s.deposits (id, a) dep,
+                  deposits := put s.deposits (id, a) dep,   -- a deposit record is written also for an empty initial deposit
                   inactiveQ := if voting then s.inactiveQ else ins s.inactiveQ (pr.depEnd, id),
                   activeQ := if voting then ins s.activeQ (pr.voteEnd, id) else s.activeQ }
 
@@ -320,23 +414,24 @@ inductive MErr where
   | same | sig | migrated | account | validator | toStaking | gov | exec
   deriving Repr, DecidableEq
 
-/-- `DepositPeriodCallback` for one proposal -/
-def depositCb (s : State) (frm to : Addr) (id : Nat) : Bool :=
+/-- `DepositPeriodCallback` for one proposal: the refusals the code contains -/
+def depositCb (c : Cfg) (s : State) (frm to : Addr) (id : Nat) : Bool :=
   match get s.props id with
   | none => true   -- `Proposals.Get` error
   | some pr =>
-    pr.proposer == frm || pr.proposer == to ||
-    (get s.deposits (id, frm)).isSome || (get s.deposits (id, to)).isSome
+    (c.gProposerFrom && pr.proposer == frm) || (c.gProposerTo && pr.proposer == to) ||
+    (c.gDepositFrom && (get s.deposits (id, frm)).isSome) || (c.gDepositTo && (get s.deposits (id, to)).isSome)
 
 /-- `VotePeriodCallback` -/
-def voteCb (s : State) (frm to : Addr) (id : Nat) : Bool :=
-  depositCb s frm to id || s.votes.contains (id, frm) || s.votes.contains (id, to)
+def voteCb (c : Cfg) (s : State) (frm to : Addr) (id : Nat) : Bool :=
+  (c.gVoteDeposit && depositCb c s frm to id) || (get s.props id).isNone ||
+  (c.gVoteFrom && s.votes.contains (id, frm)) || (c.gVoteTo && s.votes.contains (id, to))
 
 /-- `GovMigrate.Validate`: walk both queues up to the bound; `true` = refuse -/
 def govRefuses (c : Cfg) (s : State) (frm to : Addr) : Bool :=
   let inBound (t : Time) : Bool := c.govScanAll || t ≤ s.now
-  (s.inactiveQ.filter (fun p => inBound p.1)).any (fun p => depositCb s frm to p.2) ||
-  (s.activeQ.filter (fun p => inBound p.1)).any (fun p => voteCb s frm to p.2)
+  (s.inactiveQ.filter (fun p => inBound p.1)).any (fun p => depositCb c s frm to p.2) ||
+  (s.activeQ.filter (fun p => inBound p.1)).any (fun p => voteCb c s frm to p.2)
 
 /-- `DistrStakingMigrate.Validate` -/
 def stakingValidate (c : Cfg) (s : State) (frm to : Addr) : Option MErr :=
@@ -345,9 +440,21 @@ def stakingValidate (c : Cfg) (s : State) (frm to : Addr) : Option MErr :=
     (s.dels.any (fun p => p.1.1 == to) || s.ubds.any (fun p => p.1.1 == to) || s.reds.any (fun p => p.1.1 == to))
   then some .toStaking else none
 
-/-- `BankMigrate.Execute`: send every balance -/
-def bankExecute (s : State) (frm to : Addr) : State :=
-  let b := (balancesOf s.bal frm).foldl
+def lockedOf (s : State) (a : Addr) (d : Denom) : Nat := lockedAt s.vest s.now a d
+
+/-- the amount `BankMigrate.Execute` sends: every balance (`GetAllBalances`), or — any other call is read as the
+spendable part — what is not locked -/
+def bankAmounts (c : Cfg) (s : State) (frm : Addr) : List (Denom × Nat) :=
+  if c.bankAll then balancesOf s.bal frm
+  else (balancesOf s.bal frm).map (fun p => (p.1, p.2 - lockedOf s frm p.1))
+
+/-- the single `SendCoins` of the bank handler fails as a whole when one of its coins is not spendable -/
+def bankBlocked (c : Cfg) (s : State) (frm : Addr) : Bool :=
+  (bankAmounts c s frm).any (fun p => p.2 > 0 && balOf s.bal frm p.1 < lockedOf s frm p.1 + p.2)
+
+/-- `BankMigrate.Execute`: send the amount, coin by coin -/
+def bankExecute (c : Cfg) (s : State) (frm to : Addr) : State :=
+  let b := (bankAmounts c s frm).foldl
     (fun b p => match sendCoins b frm to p.1 p.2 with | some b' => b' | none => b) s.bal
   { s with bal := b }
 
@@ -364,14 +471,22 @@ def moveDelegation (c : Cfg) (frm to : Addr) (s : State) (p : (Addr × Val) × N
            dels := put (del s.dels (frm, v)) (to, v) p.2,
            delIdx := if c.rewriteDelIdx then ins (rem s.delIdx (v, frm)) (v, to) else s.delIdx }
 
-/-- one unbonding delegation of `from` (`unbondingDelegationIterator` loop body) -/
+/-- the entries whose queue slice the entry loop reaches -/
+def qEntries (c : Cfg) (es : List (Time × Nat × Nat)) : List (Time × Nat × Nat) := if c.qEveryEntry then es else es.take 1
+
+/-- one unbonding delegation of `from` (`unbondingDelegationIterator` loop body): the record and its by-validator index
+entry are re-keyed, the unbonding-id index of every entry is re-pointed, and for every entry (`qEntries`) the queue slice
+of its completion time is read and, if it names the source, written back renamed -/
 def moveUbd (c : Cfg) (frm to : Addr) (s : State) (p : (Addr × Val) × List (Time × Nat × Nat)) : State :=
   let v := p.1.2
   let s1 := { s with ubds := put (del s.ubds (frm, v)) (to, v) p.2, ubdIdx := ins (rem s.ubdIdx (v, frm)) (v, to) }
-  p.2.foldl (fun s e =>
+  let s2 := p.2.foldl (fun s e =>
+      { s with unbId := if c.rewriteUnbId then put s.unbId e.2.2 (to, v, none) else s.unbId }) s1
+  (qEntries c p.2).foldl (fun s e =>
       let slice := (get s.ubdQ e.1).getD []
-      let q := if slice.any (fun x => x.1 == frm) then put s.ubdQ e.1 (slice.map (renPair frm to)) else s.ubdQ
-      { s with ubdQ := q, unbId := if c.rewriteUnbId then put s.unbId e.2.2 (to, v, none) else s.unbId }) s1
+      let ren : Addr × Val → Addr × Val :=
+        if c.qByDelegator then renPair frm to else fun x => if x == (frm, v) then (to, v) else x
+      { s with ubdQ := if slice.any (fun x => x.1 == frm) then setAt s.ubdQ e.1 (slice.map ren) else s.ubdQ }) s2
 
 /-- one redelegation of `from` (`redelegateIterator` loop body) -/
 def moveRed (c : Cfg) (frm to : Addr) (s : State) (p : (Addr × Val × Val) × List (Time × Nat × Nat)) : State :=
@@ -380,10 +495,13 @@ def moveRed (c : Cfg) (frm to : Addr) (s : State) (p : (Addr × Val × Val) × L
   let s1 := { s with reds := put (del s.reds (frm, src, dst)) (to, src, dst) p.2,
                      redSrcIdx := ins (rem s.redSrcIdx (src, frm, dst)) (src, to, dst),
                      redDstIdx := ins (rem s.redDstIdx (dst, frm, src)) (dst, to, src) }
-  p.2.foldl (fun s e =>
+  let s2 := p.2.foldl (fun s e =>
+      { s with unbId := if c.rewriteUnbId then put s.unbId e.2.2 (to, src, some dst) else s.unbId }) s1
+  (qEntries c p.2).foldl (fun s e =>
       let slice := (get s.redQ e.1).getD []
-      let q := if slice.any (fun x => x.1 == frm) then put s.redQ e.1 (slice.map (renTriple frm to)) else s.redQ
-      { s with redQ := q, unbId := if c.rewriteUnbId then put s.unbId e.2.2 (to, src, some dst) else s.unbId }) s1
+      let ren : Addr × Val × Val → Addr × Val × Val :=
+        if c.qByDelegator then renTriple frm to else fun x => if x == (frm, src, dst) then (to, src, dst) else x
+      { s with redQ := if slice.any (fun x => x.1 == frm) then setAt s.redQ e.1 (slice.map ren) else s.redQ }) s2
 
 /-- `DistrStakingMigrate.Execute` -/
 def stakingExecute (c : Cfg) (s : State) (frm to : Addr) : State :=
@@ -391,20 +509,33 @@ def stakingExecute (c : Cfg) (s : State) (frm to : Addr) : State :=
   let s2 := ((visible s1.ubds).filter (fun p => p.1.1 == frm)).foldl (moveUbd c frm to) s1
   ((visible s2.reds).filter (fun p => p.1.1 == frm)).foldl (moveRed c frm to) s2
 
-def setRecord (s : State) (frm to : Addr) : State :=
-  { s with recs := put (put s.recs frm (true, to)) to (false, frm) }
+/-- `Keeper.SetMigrateRecord`: the record under both addresses and the two direction flags, as far as they are written -/
+def setRecord (c : Cfg) (s : State) (frm to : Addr) : State :=
+  let r1 := if c.wRecFrom then put s.recs frm (true, to) else s.recs
+  let r2 := if c.wRecTo then put r1 to (false, frm) else r1
+  { s with recs := r2,
+           dirFrom := if c.wDirFrom then ins s.dirFrom frm else s.dirFrom,
+           dirTo := if c.wDirTo then ins s.dirTo to else s.dirTo }
+
+/-- an already-migrated guard reading the key family `key` -/
+def recGuard (key : String) (s : State) (a : Addr) : Bool :=
+  if key == "GetMigratedRecordKey" then (get s.recs a).isSome
+  else if key == "GetMigratedDirectionFrom" then s.dirFrom.contains a
+  else if key == "GetMigratedDirectionTo" then s.dirTo.contains a
+  else false
 
 /-- `MsgMigrateAccount.ValidateBasic` (signature check abstracted to `sigOk`) then `Keeper.MigrateAccount` -/
 def migrate (c : Cfg) (s : State) (frm to : Addr) (sigOk : Bool) : Except MErr State :=
   if frm == to then .error .same else
   if c.sigRequired && !sigOk then .error .sig else
-  if (get s.recs frm).isSome || (get s.recs to).isSome then .error .migrated else
+  if recGuard c.recKeyFrom s frm || recGuard c.recKeyTo s to then .error .migrated else
   if !(s.hasKey.contains frm) then .error .account else
   match stakingValidate c s frm to with
   | some e => .error e
   | none =>
     if govRefuses c s frm to then .error .gov else
-    .ok (setRecord (stakingExecute c (bankExecute s frm to) frm to) frm to)
+    if bankBlocked c s frm then .error .exec else
+    .ok (setRecord c (stakingExecute c (bankExecute c s frm to) frm to) frm to)
 
 /-! ### signature (opaque hash / recover) -/
 /-- bytes signed, in the order the code hashes them (`Gen.C14.signedFields`) -/
@@ -429,6 +560,7 @@ inductive Op where
   | deposit (a : Addr) (id amt : Nat)
   | vote (a : Addr) (id : Nat)
   | block (dt : Nat)
+  | setPeriods (dp vp : Nat)
   | migrate (frm to : Addr) (sigOk : Bool)
   deriving Repr
 
@@ -446,7 +578,7 @@ def errName : MErr → String
   | .validator => "err:validator" | .toStaking => "err:to-staking" | .gov => "err:gov" | .exec => "err:exec"
 
 def step (c : Cfg) (s : State) : Op → State × String
-  | .send a b d n => ofOpt s ((sendCoins s.bal a b d n).map fun bb => { s with bal := bb })
+  | .send a b d n => ofOpt s ((sendUnlocked s.bal (lockedOf s a d) a b d n).map fun bb => { s with bal := bb })
   | .mint a d n => ({ s with bal := credit s.bal a d n }, "ok")
   | .delegate d v amt rw => ofOpt s (delegate s d v amt rw)
   | .undelegate d v amt rw => ofOpt s (undelegate s d v amt rw)
@@ -457,6 +589,7 @@ def step (c : Cfg) (s : State) : Op → State × String
   | .deposit a id amt => ofOpt s (deposit s a id amt)
   | .vote a id => ofOpt s (vote s a id)
   | .block dt => (endBlock s dt, "ok")
+  | .setPeriods dp vp => ({ s with depPeriod := dp, votePeriod := vp }, "ok")
   | .migrate frm to sigOk =>
     match migrate c s frm to sigOk with
     | .ok s' => (s', "ok")
